@@ -247,8 +247,15 @@ def check(run):
         good = [j for j, f in enumerate(files) if "garbage" not in f]
         ops = gen_seq(run.rng, files, good or [0], 14 if quick else 30)
         seqs.append(("seq %s : %s" % ("|".join(files), " ".join(ops)), files, ops))
-    out, _ = core.run_impl_lines(exe, run.work, [s[0] for s in seqs], timeout=1700)
-    judge_seqs(run, exe, seqs, out)
+    # in shards: a badly broken tree (hangs cost seconds each) is reported after the first shard
+    shard = 100 if quick else 1000
+    for i in range(0, len(seqs), shard):
+        part = seqs[i:i + shard]
+        out, _ = core.run_impl_lines(exe, run.work, [s[0] for s in part], timeout=1700)
+        judge_seqs(run, exe, part, out)
+        if len(run.violations) >= 3:
+            run.count("seq-shards-skipped-after-violations", (len(seqs) - i - len(part)) // shard)
+            break
     run.cov["rule"] = ("chunk: one case = (policy, position, length, failing I/O call, failing allocation); seq: one case = "
                        "one API history on 1-3 files; distinct = distinct case strings; non-trivial = a chunk round with a "
                        "failure or a non-embedded geometry / a history in which at least one call failed or a clone or an "
@@ -364,8 +371,13 @@ def judge_seqs(run, exe, seqs, out):
         if sig in final:
             continue
         final.add(sig)
+        shown = oo[0][:200]
+        if oo[0].startswith("BAD leak="):
+            a3 = oo[0][9:].split(",")
+            n3 = oomlib.resolve(exe, a3)
+            shown = "BAD leak of blocks allocated at " + "+".join(sorted({n3.get(a, a) for a in a3}))
         run.violation("impl", "API history breaks C15: %s; history: %s on %s"
-                      % (oo[0][:200], " ".join(small), ",".join(os.path.basename(f) for f in files)),
+                      % (shown, " ".join(small), ",".join(os.path.basename(f) for f in files)),
                       {"engine": "res", "case": l2, "files": files, "ops": small, "implementation": oo[0],
                        "how": "bin/check C15 --replay <this file> (OOM_VERBOSE=1 shows the sanitizer report)"},
                       found_input=True, signature=sig)
